@@ -427,6 +427,13 @@ UNITS = [
       cbmc_flags=["--sat-solver", "cadical"],
       stubs=["tr_recv_all", "tr_send_all", "lrtr_dbg", "pthread_setcancelstate"]),
     # ------------------------------------------------------------------ payload phase (C03 and clauses of C05 C06 C13 C14 C17)
+    U(id="store_Eq", props=["C03", "C05", "C06", "C13", "C17"], file="units/store.c", entry="h_store", tier="quick",
+      enforce=[], checked_by_assertions=["rtr_sync_receive_and_store_pdus"], need_classes=["assertion", "precondition"],
+      replace=["rtr_receive_pdu/rtr_receive_pdu__store", "rtr_send_error_pdu_from_host", "rtr_handle_error_pdu/rtr_handle_error_pdu__client", "verif_fmt"],
+      kind="bounded: the empty response (terminal event only: any PDU the receive contract can deliver or any transport outcome)",
+      defines=["STORE_EMPTY", "STORE_RECV_CONTRACT"], unwind_functions={"rtr_sync_receive_and_store_pdus": 2, "strlen": 70},
+      native=None, link=PKT_LINK, timeout=2400, object_bits=10, mem_gb=40,
+      stubs=["lrtr_malloc", "lrtr_realloc", "lrtr_free", "pfx_table_*", "spki_table_*", "lrtr_dbg", "pthread_setcancelstate"]),
     U(id="store_E", props=["C03", "C05", "C06", "C13", "C14", "C17"], file="units/store.c", entry="h_store", tier="thorough",
       enforce=[], plain=True, remove_bodies=["rtr_send_error_pdu_from_host"], allow_undefined=True, checked_by_assertions=["rtr_sync_receive_and_store_pdus", "rtr_receive_pdu", "rtr_update_pfx_table", "rtr_undo_update_pfx_table",
                                          "rtr_update_spki_table", "rtr_undo_update_spki_table", "rtr_store_prefix_pdu", "rtr_store_router_key_pdu"], need_classes=["assertion"],
